@@ -16,6 +16,7 @@ import (
 	"fmt"
 	"os"
 	"path/filepath"
+	"runtime"
 	"runtime/debug"
 	"sort"
 	"strconv"
@@ -172,7 +173,78 @@ type FileCase struct {
 	// library: a minimal case whose failure needs such state does not reproduce after History alone,
 	// the first failing case does. A replay evaluates First right after History, then Case.
 	First json.RawMessage `json:"first,omitempty"`
+	// Procs: the GOMAXPROCS setting under which the case failed, when the process was one that varies it
+	// (see procs below); a replay evaluates the case under that setting.
+	Procs int `json:"procs,omitempty"`
 }
+
+// ---------------------------------------------------------------- scheduler width
+//
+// The ordinary test processes run with GOMAXPROCS=1 (deterministic per-P runtime state). A library
+// function may however hand work to goroutines when runtime.GOMAXPROCS(0) > 1 (chunked scans, per-CPU
+// partitions): how the input is cut then depends on that number, and a chunking mistake shows only
+// for particular (size, GOMAXPROCS) pairs. A process started with VERIF_PROCS="2,3,16,..." therefore
+// runs the same tests while stepping through those settings, one block of evaluations each; the
+// setting is a function of the evaluation counter, is frozen at the first failure (so shrinking
+// judges every candidate under the setting that failed) and is written into the case file.
+
+var procsList []int
+var procsPos, procsBlockLeft int
+var procsBlock = 8
+
+func init() {
+	for _, f := range strings.Split(env("VERIF_PROCS", ""), ",") {
+		if n, err := strconv.Atoi(strings.TrimSpace(f)); err == nil && n >= 1 && n <= 256 {
+			procsList = append(procsList, n)
+		}
+	}
+	if n := envInt("VERIF_PROCS_BLOCK", 0); n > 0 {
+		procsBlock = n
+	}
+}
+
+// ProcsVaried reports whether this process steps through GOMAXPROCS settings.
+func ProcsVaried() bool { return len(procsList) > 0 }
+
+func procsStep(frozen bool) {
+	if len(procsList) == 0 || frozen {
+		return
+	}
+	if procsBlockLeft > 0 {
+		procsBlockLeft--
+		return
+	}
+	procsBlockLeft = procsBlock - 1
+	n := procsList[procsPos%len(procsList)]
+	procsPos++
+	runtime.GOMAXPROCS(n)
+	Label(fmt.Sprintf("gomaxprocs-block-%d", n), 1)
+}
+
+// ProcsSweep evaluates fn once under every setting of the list (for the few deliberately large
+// inputs of a grid, which would otherwise meet one setting only); without a list it calls fn once.
+func ProcsSweep(fn func()) {
+	if len(procsList) == 0 {
+		fn()
+		return
+	}
+	seen := map[int]bool{}
+	for _, n := range procsList {
+		if seen[n] {
+			continue
+		}
+		seen[n] = true
+		runtime.GOMAXPROCS(n)
+		procsBlockLeft = 1 << 30 // keep the setting while fn runs its evaluations
+		fn()
+		if anyFailed {
+			break
+		}
+	}
+	procsBlockLeft = 0
+}
+
+var anyFailed bool
 
 func writeAtomic(path string, data []byte) error {
 	tmp := fmt.Sprintf("%s.%d.tmp", path, os.Getpid())
@@ -515,6 +587,7 @@ func (k *Checker[C]) Eval(c C) *Failure {
 			}
 		}
 	}
+	procsStep(k.failed)
 	var f *Failure
 	nKeep, seqBefore := len(k.keepers), k.keepSeq
 	if pf := Try("harness check", func() { f = k.Check(c) }); pf != nil {
@@ -538,6 +611,7 @@ func (k *Checker[C]) Eval(c C) *Failure {
 	if f != nil {
 		if !k.failed {
 			k.failed = true
+			anyFailed = true
 			k.frozen = k.history()
 			if e := k.encode(c); len(e) <= 4<<20 {
 				k.firstFail = e
@@ -577,6 +651,9 @@ func (k *Checker[C]) writeFail(c C, f *Failure) {
 		}
 	}
 	fc.History = k.frozenEnc
+	if ProcsVaried() || replayProcs > 0 {
+		fc.Procs = runtime.GOMAXPROCS(0)
+	}
 	if k.firstFail != nil && !bytes.Equal(k.firstFail, fc.Case) {
 		fc.First = k.firstFail
 	}
@@ -587,6 +664,7 @@ func (k *Checker[C]) writeFail(c C, f *Failure) {
 }
 
 var pendingFile *os.File
+var replayProcs int
 
 // armPending writes the running case in place into pending-<pid>.json (two
 // cheap syscalls, no rename); disarmPending truncates it. A non-empty file
@@ -599,7 +677,11 @@ func armPending(id string, encoded []byte, recent [][]byte) bool {
 		}
 		pendingFile = f
 	}
-	head := []byte(`{"property":"` + id + `","kind":"process-death","message":"the test process died (fatal runtime error) while this case was being executed","case":`)
+	head := []byte(`{"property":"` + id + `","kind":"process-death","message":"the test process died (fatal runtime error) while this case was being executed",`)
+	if ProcsVaried() || replayProcs > 0 {
+		head = append(head, fmt.Sprintf(`"procs":%d,`, runtime.GOMAXPROCS(0))...)
+	}
+	head = append(head, `"case":`...)
 	buf := make([]byte, 0, len(head)+len(encoded)+64)
 	buf = append(append(buf, head...), encoded...)
 	if len(recent) > 0 {
@@ -678,6 +760,13 @@ func (k *Checker[C]) RegressLast(t *testing.T) {
 }
 
 func (k *Checker[C]) regressFiles(t *testing.T, files []string) {
+	baseProcs := runtime.GOMAXPROCS(0)
+	defer func() {
+		if replayProcs > 0 {
+			replayProcs = 0
+			runtime.GOMAXPROCS(baseProcs)
+		}
+	}()
 	for _, p := range files {
 		raw, err := os.ReadFile(p)
 		if err != nil {
@@ -699,6 +788,13 @@ func (k *Checker[C]) regressFiles(t *testing.T, files []string) {
 			t.Fatalf("cannot decode case in %s: %v", p, err)
 		}
 		Label("regress-file", 1)
+		if fc.Procs > 0 { // the case failed under this scheduler width
+			replayProcs = fc.Procs
+			runtime.GOMAXPROCS(fc.Procs)
+		} else if replayProcs > 0 {
+			replayProcs = 0
+			runtime.GOMAXPROCS(baseProcs)
+		}
 		// first what the failing process had evaluated before (state left behind by earlier calls)
 		for _, h := range fc.History {
 			var hc C
